@@ -115,6 +115,10 @@ def _solve_one(job):
             stages += [("slice1", _slice(plain + [goal], 1)), ("slice2", _slice(plain + [goal], 2))]
         if n_ax:
             stages += [("no-axioms", plain + [goal])]
+            # ground facts of the path + the spec-function axioms (unfolding a definition for
+            # the values just computed needs no quantified invariant)
+            ground = [h for h in plain if not _has_quantifier(h, None)]
+            stages += [("ground+ax", ground + hyps[len(hyps) - n_ax:] + [goal])]
             if len(hyps) > 12:
                 stages += [("slice1+ax", _slice(hyps + [goal], 1))]
         for label, sub in stages:
